@@ -120,6 +120,14 @@ CLAIMED = {
              "columns) in the symbolic run, real LAPACK in replays; finite-difference confirmation is not a solver technique and "
              "is replaced by 30-digit numerical differentiation in replays only.",
         ref="DESIGN.md C11"),
+    "C17": dict(
+        text="Bounded symbolic model checking of S2.particle_s2 (bins, shell norms, prefactor, trapezoid weights, width selection, "
+             "r<r_max filter with exp/log as function symbols), q8_tetrahedral (formula over the four nearest, =1 on the perfect "
+             "tetrahedron with symbolic scale/origin), NematicOrder.tensor (Q tensor, neighbour average, trace scalar = 2 lambda_max) "
+             "and gyration_tensor (centred second-moment tensor and descriptors of its eigenvalues).",
+        note="floats modelled as reals; exp/log/eig are contract-level symbols (2x2 closed form, 3x3 Vieta relations); N<=5; "
+             "general tetrahedral configurations vary one particle (one coordinate in quick); 0*log 0 cases excluded.",
+        ref="DESIGN.md C17"),
 }
 
 NOT_APPLICABLE = {
